@@ -157,5 +157,40 @@ def clear (h : PHeap α) (l : PL) : Option (PHeap α × PL) :=
 def blocks (h : PHeap α) (l : PL) : Nat :=
   (if l.head = 0 then 0 else 1) + (nodesOf h l).length + (freeOf h l).length
 
+/-! ### call sequences on one list object (the alphabet of `PListHistoryProofs.lean`; `Driver/C20.lean` executes
+`pstep` for these calls, so the function the history theorem speaks about is the one compared with the C++) -/
+
+inductive POp (α : Type) where
+  | pushBack (x : α)
+  | pushFront (x : α)
+  | popFront
+  | popBack
+  | clear
+
+/-- the `std::list` contract -/
+def pspecStep (s : List α) : POp α → Option (List α)
+  | .pushBack x => some (s ++ [x])
+  | .pushFront x => some (x :: s)
+  | .popFront => if s = [] then none else some s.tail
+  | .popBack => if s = [] then none else some s.dropLast
+  | .clear => some []
+
+/-- the member functions as the harness calls them -/
+def pstep (h : PHeap α) (l : PL) : POp α → Option (PHeap α × PL)
+  | .pushBack x => (constructNode h l x (endPos l)).map fun r => (r.1, r.2.1)
+  | .pushFront x => (constructNode h l x (beginPos h l)).map fun r => (r.1, r.2.1)
+  | .popFront => erase h l (beginPos h l)
+  | .popBack => if l.head = 0 then none else erase h l (h.prevOf l.head)
+  | .clear => clear h l
+
+/-- run a call sequence through the pointer code / through the contract -/
+def prun : PHeap α → PL → List (POp α) → Option (PHeap α × PL)
+  | h, l, [] => some (h, l)
+  | h, l, op :: ops => (pstep h l op).bind fun r => prun r.1 r.2 ops
+def pspecRun : List α → List (POp α) → Option (List α)
+  | s, [] => some s
+  | s, op :: ops => (pspecStep s op).bind fun s' => pspecRun s' ops
+
+
 end PL
 end XalanModel.Containers
